@@ -124,16 +124,11 @@ func reportersTrace(e *env) error {
 			}
 			es := [][]int{}
 			fmt.Fprintf(&lg, "2021/07/%02d:\n", date)
-			for i := e.rng.Intn(7); i > 0; i-- {
-				var f int
-				switch e.rng.Intn(3) {
-				case 0:
-					f = g.Book[e.rng.Intn(len(g.Book))].Name
-				case 1:
-					f = 1 + e.rng.Intn(traceNames)
-				default:
-					f = 1
-				}
+			// a small palette per day, so that foods repeat within the day in patterns like a a b c b
+			palette := []int{1, g.Book[e.rng.Intn(len(g.Book))].Name, 1 + e.rng.Intn(traceNames), g.Book[e.rng.Intn(len(g.Book))].Name, 1 + e.rng.Intn(traceNames)}
+			palette = palette[:2+e.rng.Intn(4)]
+			for i := e.rng.Intn(9); i > 0; i-- {
+				f := palette[e.rng.Intn(len(palette))]
 				q := e.rng.Intn(9) - 3
 				es = append(es, []int{f, q})
 				lg.WriteString(cc.entryLine(names[f], fmt.Sprint(q)) + "\n")
